@@ -275,6 +275,36 @@ pub fn run_c13(ctx: &mut Ctx) {
             }
         }
     }
+    // ---- ... nor do runs of constructions (blocks n, n+1, n+2 of a transfer, then the next one at a size a few bytes short)
+    if shard == 0 || level == 0 {
+        for szx in 0..7u32 {
+            let p = 16usize << szx;
+            for start in [0usize, 5, 4094, 65532] {
+                for run in [1usize, 2, 3, 4, 6] {
+                    for t in [p.wrapping_sub(1), p.wrapping_sub(8), p.wrapping_sub(12), p.wrapping_sub(13), p, p + 1, p + 12, p / 2, 2 * p - 1] {
+                        for last_more in [false, true] {
+                            rep.eval();
+                            let res = guard(|| {
+                                let mut ok = true;
+                                for k in 0..run {
+                                    ok &= BlockValue::new(start + k, true, p + (k % 3)).is_ok();
+                                }
+                                (ok, BlockValue::new(start + run, last_more, t))
+                            });
+                            let should_fail = t == 0 || t >= 4096 || start + run > 65535;
+                            let wit = format!("BlockValue::new({}..{}, true, ~{}) x{}, then BlockValue::new({}, {}, {})", start, start + run, p, run, start + run, last_more, t);
+                            match res {
+                                Err(pn) => rep.violation(&pn.sig(), pn.text(), wit),
+                                Ok((_, Ok(v))) if !should_fail && v.num as usize == start + run && v.more == last_more && (v.size_exponent as usize) == ((usize::BITS - 1 - t.leading_zeros()) as usize).max(4) - 4 => rep.count("new_after_run_ok"),
+                                Ok((_, Err(_))) if should_fail => rep.count("new_after_run_ok"),
+                                Ok((run_ok, other)) => rep.violation("block-new-depends-on-previous-call", format!("run accepted {}; the last constructor call returned {:?}", run_ok, other), wit),
+                            }
+                        }
+                    }
+                }
+            }
+        }
+    }
     // ---- fresh-process probes
     if shard == 0 {
         cold_start_probes(rep, level);
